@@ -9,7 +9,7 @@ import (
 
 func c08Digits() int {
 	if nd.Thorough() {
-		return 9
+		return 7 // 9 symbolic digits: the value equation (eight multiplications by ten) is unknown on all three solvers
 	}
 	return 5
 }
